@@ -62,6 +62,25 @@ DESC = {
  "M-C17-3": ("`repeat()` (allocates) in `Shift::forward` under `feature = \"alloc\"`", "needle > 32, critical position early, irregular head longer than the period of the tail"),
  "M-C18-3": ("`is_suffix` delegates to `starts_with` for needles > 64 bytes", "suffix needle >= 65 bytes, longer haystack whose head and tail differ"),
  "M-C19-3": ("portable `Finder::with_pair` reorders a descending pair with equal bytes", "`with_pair` with index1 > index2 holding the same byte, then `pair()`"),
+ "M-C01-4": ("free function `memchr3` collapses repeated needles and drops the middle one for (x, y, x)", "needles x,y,x with y before the first x; only the free function"),
+ "M-C02-4": ("`start >= end` guard removed from AVX2 `Three::rfind_raw`", "raw form called with REVERSED pointers (start > end)"),
+ "M-C03-4": ("`find_large_imp` hands off to `self.find(&haystack[pos..])` once the prefilter is inert and returns the sub-slice offset", "non-periodic needle > 32, prefilter goes inert mid-search, occurrence after that"),
+ "M-C04-4": ("`(max_suffix.pos, max_suffix.pos)` as (period, critical position) in `FinderRev::new`", "short-period needle whose reverse factorisation comes from the maximal suffix"),
+ "M-C05-4": ("unchecked `*needle.as_ptr().add(index)` in the vector `Finder::new`", "`with_pair` given a pair selected on another, longer needle (read past the needle)"),
+ "M-C06-4": ("`cur > start.add(1)` in the tail of `One::rfind_raw`", "remaining window >= 17 bytes starting at address 15 mod 16 whose first byte is the only match left"),
+ "M-C07-4": ("skip-empty-block test in `count_raw` built from `eqb.or(eqd)` instead of `eqc.or(eqd)`", "an aligned 4-vector block whose only matches are in its third vector"),
+ "M-C08-4": ("`FindRevIter::into_owned` rebuilt through the constructor (resets `pos`)", "reverse iterator that has already yielded, then `into_owned`, then polled"),
+ "M-C09-4": ("pairs of compare vectors OR-ed before popcount in `count_raw`", "two matches exactly one vector apart inside one aligned pair (16 apart on SSE2, 32 on AVX2)"),
+ "M-C10-4": ("`pos + needle.len() >= haystack.len()` after the prefilter jump in `find_small_imp`", "periodic needle > 32, occurrence ending on the last byte, prefilter effective there"),
+ "M-C11-4": ("extra re-alignment step in the vector `find_prefilter` loop", "haystack pointer not vector-aligned, first occurrence in the skipped offsets"),
+ "M-C12-4": ("left-part check `needle[shift] == haystack[pos+shift]` dropped in `find_small_imp`", "small-period needle with crit >= 1, window equal to `needle[1..]` after a wrong first byte"),
+ "M-C13-4": ("`starts_with(needle)` memcmp per prefilter candidate in `find_large_imp`", "banked prefilter credit, then a long run of candidates sharing m-1 bytes with the needle: work hidden in memcmp (not a counted step)"),
+ "M-C14-4": ("`index2 > needle.len()` in `Pair::with_indices`", "second offset exactly `needle.len()`, then any `with_pair` (index panic)"),
+ "M-C15-4": ("module-level detection-depth counter shared by all seven routines; third concurrent detector panics", ">= 3 threads inside first-call detection at once"),
+ "M-C16-4": ("pointer-equality shortcut `haystack.first()` == needle address in `Searcher::find`", "haystack shorter than the needle and starting at the needle's address (both windows of one buffer)"),
+ "M-C17-4": ("eager `alloc::format!` when the adaptive prefilter turns inert", "needle > 32, >= 50 prefilter candidates less than 8 bytes apart within one search"),
+ "M-C18-4": ("8-byte-word path for n >= 64 in `is_equal_raw` stops one word early", "operands >= 65 bytes, length not a multiple of 8, difference only in the `len % 8` bytes before the last word"),
+ "M-C19-4": ("vector `Finder::new` reorders a descending pair whose offsets are >= one vector apart", "`with_pair` with index1 - index2 >= 16 (SSE2) / 32 (AVX2), then `pair()`"),
 }
 rows = []
 for mid in sorted(os.listdir(os.path.join(ROOT, "seeded"))):
